@@ -27,7 +27,7 @@ var (
 )
 
 func init() {
-	layers = append(layers, layer{"L1", runL1}, layer{"L2", runL2})
+	layers = append(layers, layer{"L1", runL1}, layer{"L2", runL2}, layer{"L1x", runL1x}, layer{"L2x", runL2x})
 }
 
 // ---------------- L1: every byte string ----------------
@@ -114,29 +114,35 @@ func runL1(r *ev.Run) bool {
 		}
 	})
 	r.Add("L1_strings_len_le2", 1+256+65536)
-	bounds := map[string]interface{}{"max_len_full": 2, "placements": []string{"scriptPubKey(empty scriptSig)", "scriptSig+OP_1", "scriptSig+DEPTH 1 EQUAL", "scriptSig+P2SH(hash160(OP_1))", "P2SH redeem script", "P2WSH witness script", "tapscript leaf 0xc0"}}
-	complete := true
-	if r.Thorough() {
-		var capped sync.Once
-		ev.Par(65536, workers(), func(i int) {
-			if r.Expired() {
-				capped.Do(func() { complete = false })
-				return
-			}
-			w := ctxPool.Get().(*wctx)
-			defer ctxPool.Put(w)
-			defer w.done()
-			for j := 0; j < 256; j++ {
-				l1One(w, []byte{byte(i >> 8), byte(i), byte(j)}, false)
-			}
-			r.Add("L1_strings_len3", 256)
-		})
-		bounds["max_len_reduced_flagsets"] = 3
-		if !complete {
-			r.Cap("L1 length-3 byte strings stopped by the time box; lengths <= 2 complete")
-		}
-	}
+	bounds := map[string]interface{}{"max_len": 2, "placements": []string{"scriptPubKey(empty scriptSig)", "scriptSig+OP_1", "scriptSig+DEPTH 1 EQUAL", "scriptSig+P2SH(hash160(OP_1))", "P2SH redeem script", "P2WSH witness script", "tapscript leaf 0xc0"}}
 	r.Set("bounds_L1", bounds)
+	return true
+}
+
+// runL1x (thorough only): every byte string of length 3 with reduced flag sets.
+func runL1x(r *ev.Run) bool {
+	if !r.Thorough() {
+		return true
+	}
+	complete := true
+	var capped sync.Once
+	ev.Par(65536, workers(), func(i int) {
+		if expired(r) {
+			capped.Do(func() { complete = false })
+			return
+		}
+		w := ctxPool.Get().(*wctx)
+		defer ctxPool.Put(w)
+		defer w.done()
+		for j := 0; j < 256; j++ {
+			l1One(w, []byte{byte(i >> 8), byte(i), byte(j)}, false)
+		}
+		r.Add("L1_strings_len3", 256)
+	})
+	r.Set("bounds_L1x", map[string]interface{}{"len": 3, "placements": "all but tapscript", "flag_sets": "reduced (2-4 per placement)"})
+	if !complete {
+		r.Cap("L1x: length-3 byte strings stopped by the time box (prefixes are processed in parallel, so no complete prefix range is claimed); lengths <= 2 complete")
+	}
 	return complete
 }
 
@@ -190,10 +196,30 @@ var fullTokens = func() []token {
 	return t
 }()
 
+var reducedL2 bool // set only while runL2x runs (single-threaded switch, read by workers)
+
 var initStacks = [][][]byte{{}, {{1}}, {{}}, {{1}, {1}}, {{2}, {3}}}
 var initStackNames = []string{"[]", "[1]", "[0]", "[1 1]", "[2 3]"}
 
-func l2One(w *wctx, prog []byte, layer string, withTap bool) {
+// extra initial stacks (full alphabet, length <= 2): non-minimal numbers that can
+// only arrive un-checked through a witness stack, three- and six-deep stacks for
+// ROT/WITHIN/2ROT, maximal 4-byte numbers for overflowing arithmetic, a 520-byte item.
+var extraStacks = [][][]byte{{{0x00}}, {{0x80}}, {{0x01, 0x00}}, {{1}, {1}, {1}}, {{1}, {2}, {3}, {4}, {5}, {6}},
+	{{0xff, 0xff, 0xff, 0x7f}, {0xff, 0xff, 0xff, 0x7f}}, {rep(1, 520)}, {{0x81}, {5}}}
+var extraStackNames = []string{"[00]", "[80]", "[0100]", "[1 1 1]", "[1 2 3 4 5 6]", "[7fffffff 7fffffff]", "[520 bytes]", "[-1 5]"}
+
+// reduced flag tables for the thorough-only long programs
+var (
+	fsBareX   = []flagSet{fsNone, fsCSV, fsTaproot, fsStd}
+	fsRedeemX = []flagSet{fsP2SH, fsStd}
+	fsWitX    = []flagSet{fsSegwit, fsStd}
+)
+
+func l2One(w *wctx, prog []byte, layer string, withTap bool, stacks [][][]byte, stackNames []string) {
+	bareSets, redeemSets, witSets := fsNoDER7, fsRedeem5, fsWitness4
+	if reducedL2 {
+		bareSets, redeemSets, witSets = fsBareX, fsRedeemX, fsWitX
+	}
 	var tapPk, tapCtrl []byte
 	if withTap {
 		tapPk, tapCtrl = tapLeafOutput(numsKey, 0xc0, prog)
@@ -201,25 +227,25 @@ func l2One(w *wctx, prog []byte, layer string, withTap bool) {
 	wsh := p2wshScript(prog)
 	psh := p2shScript(prog)
 	pprog := push(prog)
-	for si, st := range initStacks {
+	for si, st := range stacks {
 		var sig []byte
 		for _, e := range st {
 			sig = append(sig, pushMinimal(e)...)
 		}
-		sn := initStackNames[si]
+		sn := stackNames[si]
 		w.set(prog, sig, nil)
-		for _, fs := range fsNoDER7 {
+		for _, fs := range bareSets {
 			w.run(layer+"/bare", fs, sn)
 		}
 		w.set(psh, cat(sig, pprog), nil)
-		for _, fs := range fsRedeem5 {
+		for _, fs := range redeemSets {
 			w.run(layer+"/p2sh", fs, sn)
 		}
 		wit := make([][]byte, 0, len(st)+2)
 		wit = append(wit, st...)
 		wit = append(wit, prog)
 		w.set(wsh, nil, wit)
-		for _, fs := range fsWitness4 {
+		for _, fs := range witSets {
 			w.run(layer+"/p2wsh", fs, sn)
 		}
 		if withTap {
@@ -234,45 +260,17 @@ func l2One(w *wctx, prog []byte, layer string, withTap bool) {
 	}
 }
 
-// enumSeq enumerates all sequences of exactly n tokens whose first token is
-// first (so the caller can parallelise over the first token).
-func enumSeq(toks []token, first, n int, f func(prog []byte)) {
-	idx := make([]int, n)
-	idx[0] = first
-	buf := make([]byte, 0, 4096)
-	for {
-		buf = buf[:0]
-		for _, k := range idx {
-			buf = append(buf, toks[k].b...)
-		}
-		f(append([]byte{}, buf...))
-		// increment positions 1..n-1
-		p := n - 1
-		for p >= 1 {
-			idx[p]++
-			if idx[p] < len(toks) {
-				break
-			}
-			idx[p] = 0
-			p--
-		}
-		if p < 1 {
-			return
-		}
-	}
-}
-
-func runL2Alphabet(r *ev.Run, toks []token, maxLen int, layer string, tapMaxLen int) (programs int64, complete bool) {
+func runL2Alphabet(r *ev.Run, toks []token, minLen, maxLen int, layer string, tapMaxLen int, stacks [][][]byte, stackNames []string) (programs int64, complete bool) {
 	complete = true
 	var mu sync.Mutex
-	for n := 1; n <= maxLen; n++ {
+	for n := minLen; n <= maxLen; n++ {
 		// parallelise over the first two tokens when n >= 2
 		units := len(toks)
 		if n >= 2 {
 			units = len(toks) * len(toks)
 		}
 		ev.Par(units, workers(), func(u int) {
-			if r.Expired() {
+			if expired(r) {
 				mu.Lock()
 				complete = false
 				mu.Unlock()
@@ -283,7 +281,7 @@ func runL2Alphabet(r *ev.Run, toks []token, maxLen int, layer string, tapMaxLen 
 			defer w.done()
 			cnt := int64(0)
 			emit := func(prog []byte) {
-				l2One(w, prog, layer, n <= tapMaxLen)
+				l2One(w, prog, layer, n <= tapMaxLen, stacks, stackNames)
 				r.NontrivialBytes(append([]byte(layer+"|"), prog...))
 				cnt++
 			}
@@ -331,28 +329,52 @@ func runL2Alphabet(r *ev.Run, toks []token, maxLen int, layer string, tapMaxLen 
 }
 
 func runL2(r *ev.Run) bool {
-	coreLen := r.Pick(3, 4)
-	fullLen := r.Pick(2, 3)
 	var names []string
 	for _, t := range coreTokens {
 		names = append(names, t.name)
 	}
 	// the empty program once
 	w := ctxPool.Get().(*wctx)
-	l2One(w, []byte{}, "L2core", true)
+	l2One(w, []byte{}, "L2core", true, initStacks, initStackNames)
 	w.done()
 	ctxPool.Put(w)
-	n1, c1 := runL2Alphabet(r, fullTokens, fullLen, "L2full", fullLen)
-	n2, c2 := runL2Alphabet(r, coreTokens, coreLen, "L2core", 3)
+	n1, c1 := runL2Alphabet(r, fullTokens, 1, 2, "L2full", 2, initStacks, initStackNames)
+	n3, c3 := runL2Alphabet(r, fullTokens, 1, 2, "L2extra", 2, extraStacks, extraStackNames)
+	n2, c2 := runL2Alphabet(r, coreTokens, 1, 3, "L2core", 3, initStacks, initStackNames)
 	r.Add("L2_programs_full_alphabet", n1)
+	r.Add("L2_programs_full_alphabet_extra_stacks", n3)
 	r.Add("L2_programs_core_alphabet", n2+1)
 	r.Set("bounds_L2", map[string]interface{}{
-		"core_alphabet": names, "core_alphabet_size": len(coreTokens), "core_max_len": coreLen,
+		"core_alphabet": names, "core_alphabet_size": len(coreTokens), "core_max_len": 3,
 		"full_alphabet_size": len(fullTokens), "full_alphabet": "all push forms (20) + every opcode byte 0x4f..0xbb + 0xfe 0xff",
-		"full_max_len": fullLen, "initial_stacks": initStackNames,
+		"full_max_len": 2, "initial_stacks": initStackNames, "extra_initial_stacks_full_alphabet_len_le2": extraStackNames,
 		"wrappings": []string{"bare (scriptSig pushes stack)", "P2SH redeem script", "P2WSH witness script", "tapscript leaf 0xc0 (single-leaf tree, NUMS internal key)"},
-		"tapscript_wrapping_max_len_core": 3,
-		"flag_sets":                      map[string]int{"bare": len(fsNoDER7), "p2sh": len(fsRedeem5), "p2wsh": len(fsWitness4), "tapscript": len(fsTapscript)},
+		"flag_sets": map[string]int{"bare": len(fsNoDER7), "p2sh": len(fsRedeem5), "p2wsh": len(fsWitness4), "tapscript": len(fsTapscript)},
 	})
+	return c1 && c2 && c3
+}
+
+// runL2x (thorough only): full alphabet length 3, core alphabet length 4.
+func runL2x(r *ev.Run) bool {
+	if !r.Thorough() {
+		return true
+	}
+	reducedL2 = true
+	defer func() { reducedL2 = false }()
+	n1, c1 := runL2Alphabet(r, fullTokens, 3, 3, "L2full", 2, initStacks, initStackNames)
+	r.Add("L2_programs_full_alphabet_len3", n1)
+	n2, c2 := false2(c1, func() (int64, bool) {
+		return runL2Alphabet(r, coreTokens, 4, 4, "L2core", 3, initStacks, initStackNames)
+	})
+	r.Add("L2_programs_core_alphabet_len4", n2)
+	r.Set("bounds_L2x", map[string]interface{}{"full_alphabet_len": 3, "core_alphabet_len": 4, "tapscript_wrapping": "not applied at these lengths (EC cost)",
+		"flag_sets": map[string]int{"bare": len(fsBareX), "p2sh": len(fsRedeemX), "p2wsh": len(fsWitX)}})
 	return c1 && c2
+}
+
+func false2(prev bool, f func() (int64, bool)) (int64, bool) {
+	if !prev {
+		return 0, false
+	}
+	return f()
 }
